@@ -108,6 +108,13 @@ def run(ctx):
             else:
                 cs = [c for c in db.calls()]
                 okc = len(cs) == 1 and cs[0].callee.best == 'entry::AtomicReloadId::new' and cs[0].dest['l'] == 0
+            if not okc:
+                # #[derive(Default)]: the single field gets its own default, 0 -- which is NEVER (checked below) and what new() stores
+                cs = [c for c in db.calls()]
+                ag = [s_ for _, _, s_ in db.assigns() if s_['rv']['k'] == 'aggregate' and s_['rv'].get('adt') in ('entry::ReloadId', 'entry::AtomicReloadId')]
+                okc = len(cs) == 1 and cs[0].callee.name == 'default' and cs[0].callee.trait == 'std::default::Default' \
+                    and (cs[0].callee.self_ty or '') in ('usize', 'std::sync::atomic::AtomicUsize', 'std::sync::atomic::Atomic<usize>') and len(ag) == 1 \
+                    and db.access_path(ag[0]['rv']['ops'][0]) == ['call@bb%d' % cs[0].bb]
             R3.check(okc, cfg, p, 'default=' + want, 'Default must be %s' % want, db.loc())
         # ReloadWatcher::reloaded = last.update(reload_id.load())
         if 'hot-reloading' in ctx.cfg_features[cfg]:
@@ -275,6 +282,12 @@ def table_update(R, cfg, b, old_tok, new_tok, atomic=False):
                     x0, x1 = [('old' if x == 'same' else x) for x in a]
                     rr = '=' if ('same' in a or x0 == x1) else (rel if (x0, x1) == ('new', 'old') else {'<': '>', '=': '=', '>': '<'}[rel])
                     r = ('ordering', {'<': -1, '=': 0, '>': 1}[rr], name == 'partial_cmp')
+                elif fn.get('def', '').startswith('std::cmp::Ordering::is_') and len(raw_args) == 1 and isinstance(raw_args[0], tuple) and raw_args[0][0] == 'ordering':
+                    o_ = raw_args[0][1]
+                    r = {'is_lt': o_ < 0, 'is_le': o_ <= 0, 'is_gt': o_ > 0, 'is_ge': o_ >= 0, 'is_eq': o_ == 0, 'is_ne': o_ != 0}.get(fn.get('def').rsplit('::', 1)[-1])
+                    if r is None:
+                        verdict = 'operation `%s` on the ids is not understood' % (t['func'].get('text') or '?')
+                        break
                 elif tr == 'std::cmp::Ord' and name in ('max', 'min') and len(a) == 2 and all(x in ('old', 'new', 'same') for x in a):
                     r = bigger(a[0] if a[0] != 'same' else 'old', a[1] if a[1] != 'same' else 'old', rel, name == 'max')
                 elif fn.get('def', '').startswith('core::panicking') or t.get('target') is None:
@@ -345,7 +358,8 @@ def ret_value(b, p, c, truth):
 def table_atomic_update(R, cfg, b):
     fm = [c for c in b.calls() if c.callee and c.callee.best == 'entry::AtomicReloadId::fetch_max']
     cmps = find_cmp(b)
-    others = [c for c in b.calls() if c not in fm and c not in cmps and not c.exp and not (c.callee and c.callee.best == 'entry::ReloadId::update')]
+    others = [c for c in b.calls() if c not in fm and c not in cmps and not c.exp and not (c.callee and c.callee.best == 'entry::ReloadId::update')
+              and not (c.callee and c.callee.best.startswith('std::cmp::Ordering::is_'))]
     if not cmps and [c for c in b.calls() if c.callee and c.callee.best == 'entry::ReloadId::update']:
         cmps = [c for c in b.calls() if c.callee and c.callee.best == 'entry::ReloadId::update']
     raw = [c for c in b.calls() if c.callee and c.callee.name == 'fetch_max' and 'atomic::Atomic' in c.callee.best and 'usize' in c.callee.best]
